@@ -39,7 +39,8 @@ R02.10 counter byte mirror: the AVX2 and VAES families keep the low byte of the 
       edge, must not exceed 255 - otherwise the cheap add is used when the counter byte wraps and the carry is lost.
       Guards that are not followed by an advance (the last group of blocks of a message) are judged on the length
       skeleton instead: where the run forks on such a compare, largest cheap-path value + blocks still to be produced
-      (from the output bytes written so far) must not exceed 255.
+      (a lower bound: the bytes of the
+      message neither written nor even read at that point) must not exceed 255.
 R02.11 sliding-window byte masks: the sse / avx families fetch the mask for a trailing partial block as an unaligned
       16-byte window over two adjacent constants (sixteen ff bytes followed by sixteen 00 bytes).  On the length
       skeleton every constant fetched that way and consumed by a (v)pand must consist of 00 and ff bytes only - the
@@ -242,9 +243,13 @@ class GuardMachine(aesrounds.AesMachine):
             return
         ci, T, w = last_cmp
         hi = 0
+        hin = 0
         for (i, tag, off, size, rw, masked) in self.res.accesses:
             if tag == "out" and "w" in rw and off + size > hi:
                 hi = off + size
+            if tag == "in" and "r" in rw and off + size > hin:
+                hin = off + size
+        hi = max(hi, hin)       # bytes neither written nor even read yet certainly still need counter blocks: a lower bound
         if not hasattr(self, "guards"):
             self.guards = []
         self.guards.append((ci, T, w, branch, hi))
